@@ -112,6 +112,56 @@ def gen_c03_invalid(rng, tier):
                 else:
                     r = "axes_ok"
                 add("moveaxis", "%s %s %s" % (fmt_vec(s), fmt_vec(ax), fmt_vec(bx)), r, shape=s, src=ax, dst=bx)
+    # moveaxis / flip / expand_dims with axis LISTS of every length 1..dim (validity depends on the dimension only, so one source
+    # shape per dimension): every in-range source list x every in-range destination list (duplicates in either list at any
+    # pair of positions, after normalisation of negatives), exhaustively up to 3 entries; plus lists with one out-of-range entry.
+    def mv_reason(d, ax, bx):
+        na = [a + d if a < 0 else a for a in ax]
+        nb = [a + d if a < 0 else a for a in bx]
+        if any(not (0 <= a < d) for a in na + nb):
+            return "axis_out_of_range"
+        if len(set(na)) != len(na):
+            return "axis_duplicate_source"
+        if len(set(nb)) != len(nb):
+            return "axis_duplicate_destination"
+        return "axes_ok"
+    for s in ([(2,), (2, 3), (2, 1, 3)] if quick else [(2,), (2, 3), (2, 1, 3), (1, 2, 2, 3)]):
+        d = len(s)
+        inr = list(range(-d, d))
+        for L in range(1, min(d, 3) + 1):
+            lists = [list(t) for t in itertools.product(inr, repeat=L)]
+            distinct = [t for t in lists if len({a % d for a in t}) == L]
+            dup = [t for t in lists if len({a % d for a in t}) != L]
+            pairs = []
+            if len(lists) ** 2 <= 1500 or not quick:
+                pairs = [(a, b) for a in lists for b in lists]
+                if len(pairs) > 60000:
+                    pairs = rng.sample(pairs, 60000)
+            else:
+                # duplicates in exactly one of the lists against every / sampled valid partner, plus a sample of the rest
+                for a in dup:
+                    pairs += [(a, b) for b in rng.sample(distinct, min(len(distinct), 14))]
+                    pairs += [(b, a) for b in rng.sample(distinct, min(len(distinct), 14))]
+                pairs += [(rng.choice(lists), rng.choice(lists)) for _ in range(1500)]
+                pairs += [(a, b) for a in rng.sample(distinct, min(len(distinct), 30)) for b in rng.sample(distinct, 20)]
+            for ax, bx in pairs:
+                add("moveaxis", "%s %s %s" % (fmt_vec(s), fmt_vec(ax), fmt_vec(bx)), mv_reason(d, ax, bx), shape=s, src=ax, dst=bx)
+            for _ in range(40 if quick else 400):
+                ax, bx = list(rng.choice(lists)), list(rng.choice(lists))
+                tgt = ax if rng.random() < 0.5 else bx
+                tgt[rng.randrange(L)] = rng.choice([-d - 2, -d - 1, d, d + 1])
+                add("moveaxis", "%s %s %s" % (fmt_vec(s), fmt_vec(ax), fmt_vec(bx)), mv_reason(d, ax, bx), shape=s, src=ax, dst=bx)
+            # flip / expand_dims lists of the same lengths (exhaustive over in-range entries up to 3 entries)
+            fl = lists if len(lists) <= 300 else rng.sample(lists, 300)
+            for ax in fl:
+                r = "axes_ok" if len({a % d for a in ax}) == L else "axis_duplicate"
+                add("flip", "%s %s" % (fmt_vec(s), fmt_vec(ax)), r, shape=s, axes=list(ax))
+            nd = d + L
+            el = [list(t) for t in itertools.product(range(-nd, nd), repeat=L)]
+            el = el if len(el) <= 300 else rng.sample(el, 300)
+            for ax in el:
+                r = "axes_ok" if len({a % nd for a in ax}) == L else "axis_duplicate"
+                add("expand_dims", "%s %s" % (fmt_vec(s), fmt_vec(ax)), r, shape=s, axes=list(ax))
     return cases
 
 
